@@ -437,17 +437,8 @@ def diagnose(F: Facts, v) -> str:
                 return 'F9'
         return 'unexplained'
     if prop == 'C15' and cl == 'late_return':
-        # F28: what made the bus idle was an inline processing (of one of its events, by a handler of another bus)
-        # that was *interrupted* - the handler doing it timed out.  The polling loop leaves by the exception and never
-        # reaches the place where it raises the idle flags; the bus's own run loop is blocked behind the global lock.
-        bus = key[0]
-        tq = v['detail'].get('idle_since')
-        mine = {ev for (bb, ev) in F.accepted if bb == bus}
-        for (bb, ev), lst in F.pe.items():
-            if bb == bus or ev in mine:
-                for p_ in lst:
-                    if p_[5] is not None and tq is not None and abs(p_[5] - tq) < 1e-9 and p_[3] and p_[3][0] == 'CancelledError' and p_[2].startswith('inline:'):
-                        return 'F28'
+        # (F28 - late idle flag after an *interrupted* inline processing - was repaired in /repo c5c063c; its pin
+        # findings/F28.json is replayed by every C15 check as a regression test, and no late return is excused any more)
         return 'unexplained'
     if prop == 'C17' and cl == 'written_before_handlers_finished':
         bus, ev = key
